@@ -1459,6 +1459,327 @@ def register_proxy(reg):
     )
 
 
+# ====================================================================================================
+# (5) scenario start / stop: nested overrides are unwound innermost first; nothing that depends on one simulation
+#     (time limit in steps, running flag) survives on the compile-time scenario object into the next simulation
+
+
+def register_start_stop(reg):
+    # =============================================================================== _stop with a running child overriding the same object
+    def setup_nested(I, env):
+        eng = I.eng
+        parent = make_running_scenario(I, "parent scenario")
+        child = make_running_scenario(I, "child scenario (still running)")
+        parent.fields["_subScenarios"] = PList([child])
+        obj = make_overridable(I)
+        seen = []
+        mon = PObj("Monitor", tag="monitor of the parent")
+        mon.fields["_isRunning"] = True
+
+        def mon_stop(reason=None):
+            mon.fields["_isRunning"] = False
+            seen.append(("monitor stopped", {p: obj.fields[p] for p in PROPS}))
+
+        mon.fields["_stop"] = BuiltinFn("_stop", mon_stop)
+        parent.fields["_monitors"] = PList([mon])
+        view = reg.contracts[f"{DS}:DynamicScenario._override"].inline_view()
+        f = scenario_method(I, "_override")
+        pp = SUBSETS[eng.choose(len(SUBSETS), "properties overridden by the parent")]
+        cp = SUBSETS[eng.choose(len(SUBSETS), "properties overridden by the child")]
+        I.run_function(f, [parent, obj, (make_specifier(I, pp, "parent_override"),)], {}, view)
+        I.run_function(f, [child, obj, (make_specifier(I, cp, "child_override"),)], {}, view)
+        eng.input_syms.append(("nested", C.Const(None), repr((pp, cp))))
+        env.vars.update(self=parent, reason="time limit reached", quiet=eng.choose(2, "quiet stop?") == 1)
+        env.vars["_world"] = (parent, child, obj, mon, seen, pp, cp, {p: obj.fields[p] for p in PROPS})
+
+    def post_nested(I, env, outcome):
+        name = "scenarios.DynamicScenario._stop[nested-overrides]"
+        parent, child, obj, mon, seen, pp, cp, before_stop = env.vars["_world"]
+        if outcome[0] != "return":
+            return
+        detail = f"parent overrides {pp}, its running child overrides {cp}"
+        for p in PROPS:
+            I.eng.check(f"{name}#ensures.property_overridden_by_the_scenario_or_its_sub_scenarios_reads_as_before_the_first_override[{p}]", compare("==", obj.fields[p], obj.orig[p]), detail=detail)
+        I.eng.check(f"{name}#ensures.running_sub_scenarios_and_monitors_are_stopped", child.fields["_isRunning"] is False and mon.fields["_isRunning"] is False and not MD.current_state(I).get("runningScenarios").items)
+        # step 1e: "first recursively stop any sub-scenarios it is running, THEN revert the effects of any override statements it executed"
+        ok = len(seen) == 1 and all(seen[0][1][p] is before_stop[p] for p in PROPS)
+        I.eng.check(f"{name}#ensures.own_overrides_still_in_place_while_monitors_and_sub_scenarios_are_being_stopped", ok, detail=detail)
+
+    reg.add(
+        C.Contract(
+            f"{DS}:DynamicScenario._stop",
+            params=dict(self=C.Const(None), reason=C.Const(None), quiet=C.Const(None)),
+            setup=setup_nested,
+            post=post_nested,
+            inline=["DynamicScenario._stop", "DynamicScenario._override", "Invocable._stop", "endScenario", "Constructible._override", "Constructible._revert"],
+            replay=replay_nested_overrides,
+            bounded=True,
+            note="bounded: one parent with one running child scenario and one monitor; both scenarios override one or both of two properties of the same object",
+            properties=("C14",),
+        ),
+        key=f"{DS}:DynamicScenario._stop[nested-overrides]",
+    )
+
+    # =============================================================================== _start, twice on the same compile-time object
+    BEH = "scenic.core.dynamics.behaviors:Behavior"
+
+    def make_compiled_scenario(I, spec, tag, faults):
+        """The scenario object as compilation leaves it (`__init__` values; time limit from `terminate after`)."""
+        sc = PObj(repo_class(f"{DS}:DynamicScenario"), tag=tag)
+        flag = {"on": faults}
+        sc.fault_flag = flag
+        agent = PObj("Object", tag="agent")
+        beh = PObj(repo_class(BEH), tag="behavior")
+        beh.fields["_assignTo"] = BuiltinFn("_assignTo", lambda a: flag["on"] and MD.maybe_raise(I, "behavior._assignTo(): a precondition of the behavior is violated"))
+        agent.fields["behavior"] = beh
+        mon = PObj("Monitor", tag="monitor")
+        mon.fields["_isRunning"] = False
+
+        def mon_start():
+            if flag["on"]:
+                MD.maybe_raise(I, "monitor._start(): a precondition of the monitor is violated")
+            mon.fields["_isRunning"] = True
+
+        def mon_stop(reason=None):
+            mon.fields["_isRunning"] = False
+
+        mon.fields["_start"], mon.fields["_stop"] = BuiltinFn("_start", mon_start), BuiltinFn("_stop", mon_stop)
+        treq = PObj("DynamicRequirement", tag="temporal requirement")
+        treq.fields["toMonitor"] = BuiltinFn("toMonitor", lambda: PObj("RequirementMonitor", dict(lastValue=PObj("B4", dict(is_falsy=False), tag="value")), tag="requirement monitor"))
+
+        def check_pre():
+            if flag["on"]:
+                MD.maybe_raise(I, "the scenario's own precondition is violated when it starts (check delayed from compile time)")
+
+        sc.fields.update(
+            _isRunning=False, _prepared=True, _delayingPreconditionCheck=spec["delayed"], _args=(), _kwargs=PDict(), _agent=None, _runningIterator=None,
+            _timeLimit=spec["N"], _timeLimitIsInSeconds=spec["seconds"], _timeLimitInSteps=None, _elapsedTime=0,
+            _temporalRequirements=PList([treq]), _requirementMonitors=None, _compose=None, _agents=PList([agent]), _monitors=PList([mon]),
+            _subScenarios=PList(), _overrides=PDict(), _recordedExprs=PList(), _globalParameters=PDict(), _ego=None, _workspace=None,
+        )
+        sc.fields["_checkAllPreconditions"] = BuiltinFn("_checkAllPreconditions", check_pre)
+        scene = PObj("Scene", tag="scene")
+        scene.fields.update(egoObject=agent, workspace=PObj("Workspace", tag="workspace"), objects=(agent,), monitors=(mon,), temporalRequirements=PList([treq]), terminationConditions=PList(), terminateSimulationConditions=PList(), recordedExprs=PList(), recordedInitialExprs=PList(), recordedFinalExprs=PList())
+        return sc, scene
+
+    def new_simulation(I, tag, ts):
+        sim = PObj("Simulation", tag=tag)
+        sim.fields.update(timestep=ts, name=tag)
+        MD.current_state(I).set("currentSimulation", sim)
+        return sim
+
+    def setup_restart(I, env):
+        eng = I.eng
+        unit = eng.choose(3, "time limit: none / in steps / in seconds")
+        n = None
+        if unit:
+            n = eng.fresh_real("N")
+            eng.assume(compare(">=", n, 0))
+            eng.input_syms.append(("N", C.Real(), n))
+        spec = dict(N=n, seconds=(unit == 2), delayed=eng.choose(2, "precondition check delayed until start?") == 1)
+        ts = []
+        for k in (1, 2):
+            t = eng.fresh_real(f"timestep{k}")
+            eng.assume(compare(">", t, 0))
+            eng.input_syms.append((f"timestep{k}", C.Real(), t))
+            ts.append(t)
+        eng.input_syms.append(("limit_unit", C.Const(None), ["none", "steps", "seconds"][unit]))
+        sc, scene = make_compiled_scenario(I, spec, "compiled scenario", faults=True)
+        new_simulation(I, "first simulation", ts[0])
+        env.vars["self"] = sc
+        env.vars["_world"] = (spec, ts, scene)
+
+    def limit_for(spec, t):
+        from pyvc.values import arith
+
+        if spec["N"] is None:
+            return None
+        return arith("/", spec["N"], t) if spec["seconds"] else spec["N"]
+
+    def same_field(I, a, b):
+        """Equality of what two scenario objects hold: scalars by value, modelled objects by role (tag), lists element-wise."""
+        if isinstance(a, BuiltinFn) or isinstance(b, BuiltinFn):
+            return True
+        if isinstance(a, PObj) and isinstance(b, PObj):
+            return a.tag == b.tag
+        if isinstance(a, (PList, tuple)) and isinstance(b, (PList, tuple)):
+            xs, ys = (a.items if isinstance(a, PList) else list(a)), (b.items if isinstance(b, PList) else list(b))
+            return len(xs) == len(ys) and all(same_field(I, x, y) is True for x, y in zip(xs, ys))
+        if isinstance(a, PDict) and isinstance(b, PDict):
+            return len(a.keys) == len(b.keys)
+        return MD.same_value(I, a, b)
+
+    def post_restart(I, env, outcome):
+        eng = I.eng
+        name = "scenarios.DynamicScenario._start"
+        sc = env.vars["self"]
+        spec, ts, scene = env.vars["_world"]
+        st = MD.current_state(I)
+        faults = MD.faults_on_path(I)
+        eng.input_syms.append(("faults", C.Const(None), repr(faults)))
+        if outcome[0] == "raise":
+            # the caller's clean-up (Simulation.__init__) stops exactly the scenarios listed as running
+            ok = sc.fields["_isRunning"] is False or any(x is sc for x in st.get("runningScenarios").items)
+            eng.check(f"{name}#ensures.a_failed_start_leaves_the_scenario_stopped_or_registered_for_the_clean_up", ok, detail=f"fault: {faults!r}")
+            return
+        want1 = limit_for(spec, ts[0])
+        eng.check(f"{name}#ensures.time_limit_in_steps_from_the_limit_and_this_simulations_timestep", want1 is None and sc.fields["_timeLimitInSteps"] is None or want1 is not None and compare("==", sc.fields["_timeLimitInSteps"], want1))
+        eng.check(f"{name}#ensures.running_registered_clock_at_zero", sc.fields["_isRunning"] is True and st.get("runningScenarios").items == [sc] and sc.fields["_elapsedTime"] == 0)
+        # ---- end of the first simulation (REAL _stop, as Simulation.__init__ calls it), then a second simulation of the same scene
+        view = reg.contracts[f"{DS}:DynamicScenario._start"].inline_view()
+        sc.fault_flag["on"] = False
+        sc.fields["_elapsedTime"] = 3
+        I.run_function(scenario_method(I, "_stop"), [sc, "simulation terminated"], {}, view)
+        st.set("currentSimulation", None)
+        I.run_function(scenario_method(I, "_bindTo"), [sc, scene], {}, view)
+        new_simulation(I, "second simulation", ts[1])
+        I.run_function(scenario_method(I, "_start"), [sc], {}, view)
+        want2 = limit_for(spec, ts[1])
+        got = sc.fields["_timeLimitInSteps"]
+        eng.check(
+            f"{name}#relational.second_start_recomputes_the_time_limit_from_the_current_timestep",
+            want2 is None and got is None or want2 is not None and got is not None and compare("==", got, want2),
+            detail=f"limit unit: {['none', 'steps', 'seconds'][1 + spec['seconds'] if spec['N'] is not None else 0]}",
+        )
+        # ---- reference: a freshly compiled copy started once with the second simulation's timestep
+        st.get("runningScenarios").items.clear()
+        ref, ref_scene = make_compiled_scenario(I, spec, "compiled scenario", faults=False)
+        I.run_function(scenario_method(I, "_bindTo"), [ref, ref_scene], {}, view)
+        I.run_function(scenario_method(I, "_start"), [ref], {}, view)
+        diff = []
+        for k in sorted(set(sc.fields) | set(ref.fields)):
+            if k not in sc.fields or k not in ref.fields:
+                diff.append(k)
+                continue
+            r = same_field(I, sc.fields[k], ref.fields[k])
+            if r is True:
+                continue
+            if r is False or not eng.check(f"{name}#relational.second_simulation_finds_the_scenario_as_a_fresh_process_does[{k}]", r):
+                diff.append(k)
+        eng.check(f"{name}#relational.second_simulation_finds_the_scenario_as_a_fresh_process_does", not [k for k in diff if same_field(I, sc.fields.get(k), ref.fields.get(k)) is False], detail=f"fields that differ from a freshly compiled scenario started with the same timestep: {diff}")
+
+    reg.add(
+        C.Contract(
+            f"{DS}:DynamicScenario._start",
+            params=dict(self=C.Const(None)),
+            setup=setup_restart,
+            post=post_restart,
+            inline=["DynamicScenario._start", "DynamicScenario._stop", "DynamicScenario._bindTo", "Invocable._start", "Invocable._stop", "Invocable._finalizeArguments", "startScenario", "endScenario"],
+            raises=[C.Raises("Exception", mode="may")],
+            replay=replay_restart,
+            bounded=True,
+            note="bounded: one agent, one monitor, one temporal requirement, no compose block; time limit none / N steps / N seconds with symbolic N and two symbolic timesteps",
+            properties=("C14",),
+        )
+    )
+
+
+def replay_nested_overrides(inputs, clause):
+    """Real nested scenarios overriding the same property; the parent is ended while the child still runs."""
+    import scenic
+    from scenic.core.simulators import DummySimulator
+
+    src = """
+scenario Main():
+    setup:
+        ego = new Object with foo 0, with bar 0, with behavior Report
+        record ego.foo as foo
+        record ego.bar as bar
+    compose:
+        wait
+        do Outer() for 2 steps
+        wait
+        wait
+scenario Outer():
+    setup:
+        override ego with foo 1, with bar 1
+    compose:
+        do Inner()
+scenario Inner():
+    setup:
+        override ego with foo 2, with bar 2
+    compose:
+        while True:
+            wait
+behavior Report():
+    while True:
+        take self.foo
+"""
+    sc = scenic.scenarioFromString(src, scenario="Main")
+    scene, _ = sc.generate()
+    sim = DummySimulator().simulate(scene, maxSteps=5, maxIterations=1)
+    if sim is None:
+        return "nested overrides: the simulation was rejected"
+    want = clause.split("[", 1)[1].rstrip("]") if "[" in clause else None
+    for prop in ("foo", "bar"):
+        if want in ("foo", "bar") and want != prop:
+            continue
+        vals = [v for _, v in sim.result.records[prop]]
+        if vals[:3] != [0, 2, 2]:
+            return f"nested overrides of ego.{prop}: recorded {vals}; expected 0 before, 2 while Outer (1) and Inner (2) run"
+        if any(v != 0 for v in vals[3:]):
+            return f"Outer overrides ego.{prop} to 1 and runs Inner, which overrides it to 2; `do Outer() for 2 steps` ends Outer while Inner is still running; afterwards ego.{prop} reads {vals[3:]} instead of 0 (recorded: {vals})"
+    return None
+
+
+RESTART_PROGRAM = """
+behavior Count():
+    n = 0
+    while True:
+        take n
+        n += 1
+ego = new Object with behavior Count
+terminate after 2 seconds
+"""
+
+STUCK_PROGRAM = """
+flag = [False]
+scenario Main():
+    precondition: flag[0]
+    setup:
+        ego = new Object
+"""
+
+
+def replay_restart(inputs, clause):
+    """Several simulations from ONE compiled scenario, compared with freshly compiled copies."""
+    import scenic
+    from scenic.core.simulators import DummySimulator
+
+    faults = inputs.get("faults", "[]") if isinstance(inputs, dict) else "[]"
+    if "precondition is violated when it starts" in faults or clause == "*" or "failed_start" in clause:
+        sc = scenic.scenarioFromString(STUCK_PROGRAM, scenario="Main")
+        scene, _ = sc.generate()
+        first = DummySimulator().simulate(scene, maxSteps=2, maxIterations=1)
+        if first is None and sc.dynamicScenario._isRunning:
+            try:
+                DummySimulator().simulate(scene, maxSteps=2, maxIterations=1)
+                second = "is accepted"
+            except AssertionError as e:
+                import traceback
+
+                w = traceback.extract_tb(e.__traceback__)[-1]
+                second = f"dies with AssertionError at {w.filename.rsplit('/', 1)[-1]}:{w.lineno} ({w.line})"
+            return f"a top-level scenario whose precondition is false when the simulation starts: the simulation is rejected, but the compiled scenario object stays marked as running (_isRunning = True); the next simulation of the same scene {second}"
+        if "failed_start" in clause:
+            return None
+
+    def steps(scenario, scene, ts):
+        sim = DummySimulator().simulate(scene, maxSteps=30, timestep=ts, maxIterations=1)
+        return None if sim is None else sim.currentTime
+
+    shared = scenic.scenarioFromString(RESTART_PROGRAM)
+    scene, _ = shared.generate()
+    for ts in (1, 0.5, 0.25, 1):
+        got = steps(shared, scene, ts)
+        fresh = scenic.scenarioFromString(RESTART_PROGRAM)
+        fscene, _ = fresh.generate()
+        want = steps(fresh, fscene, ts)
+        if got != want:
+            return f"`terminate after 2 seconds`, simulations with timesteps 1, 0.5, 0.25, 1 from one compiled scenario: the run with timestep {ts} takes {got} steps; a freshly compiled copy takes {want}"
+    return None
+
+
 _register_veneer = register
 
 
@@ -1467,3 +1788,4 @@ def register(reg):  # noqa: F811
     register_overrides(reg)
     register_simulation_cleanup(reg)
     register_proxy(reg)
+    register_start_stop(reg)
